@@ -327,7 +327,8 @@ func TestVerif_C04_Histories(t *testing.T) {
 		}
 		rt.Repeat(map[string]func(*rapid.T){
 			"create": func(rt *rapid.T) {
-				if len(w.toks) >= 9 {
+				// nine tokens per history, up to eighteen when all of them are gone
+				if len(w.toks) >= 9 && (len(w.aliveIdx()) > 0 || len(w.toks) >= 18) {
 					rt.Skip("enough tokens")
 				}
 				parent := -1
@@ -385,6 +386,20 @@ func TestVerif_C04_Histories(t *testing.T) {
 			},
 			"renew": func(rt *rapid.T) {
 				i := pickAlive("tok")
+				if i < 0 && len(w.toks) > 0 {
+					// nothing is alive any more: a revoked token asks for more time. Keeps one action besides "revoke"
+					// enabled in the terminal state of a history (rapid gives up a case after 100 skipped draws in a
+					// row, seen at 6 of 16 shards of a thorough run)
+					j := rapid.IntRange(0, len(w.toks)-1).Draw(rt, "deadTok")
+					if !w.toks[j].batch {
+						r := w.tc.req(logical.UpdateOperation, "auth/token/renew-self", w.toks[j].id, map[string]any{"increment": "30m"})
+						w.logf("renew of revoked token %d -> %v", j, r)
+						if r.ok() {
+							fail("revoked-token-renewed", fmt.Sprintf("revoked token %d renewed itself: %v", j, r))
+						}
+					}
+					return
+				}
 				if i < 0 || w.toks[i].batch {
 					rt.Skip("no live service token")
 				}
